@@ -10,7 +10,7 @@ The property the change must break (also in /tmp/mut6/{pid}.prop.txt):
 "{pid} — {title}. {statement} ({quant})"
 Relevant files: {files}.
 
-Previous seeded changes for this property were: {prev} — yours must be DIFFERENT in kind (another clause of the property, another code path, another function). Look for the least obvious clause of the property text and the least exercised code path; prefer a change whose effect shows only in an unusual but reachable state, configuration or ordering of calls.
+Previous seeded changes for this property were: {prev} — yours must be DIFFERENT in kind (another clause of the property, another code path, another function). Look for the least obvious clause of the property text and the least exercised code path; prefer a change whose effect shows only in an unusual but reachable state, configuration or ordering of calls. If the property allows it, make the change outside the obvious handler body (the entry-point dispatch in contract.rs, ibc.rs, types.rs, state.rs, helpers.rs, query.rs, oracle.rs, packages/milky_way, the migrations, the treasury, the bindings) and make the failure need at least two independent conditions to coincide.
 
 Task:
 1. Read the relevant code.
